@@ -62,8 +62,8 @@ macro_rules! angle_systems {
             pub fn values<T: Fl>(fine: bool) -> Vec<T> {
                 let turn: T = A::<T>::full_turn().0;
                 let mut out = Vec::new();
-                let div = if fine { 64 } else { 8 };
-                let jmax = if fine { 160 } else { 20 };
+                let div = if fine { 96 } else { 8 };
+                let jmax = if fine { 480 } else { 20 };
                 let tiny = if T::EXACT { T::q(1, 1 << 40) } else { T::q(1, 1 << 20) };
                 for j in -jmax..=jmax {
                     let base = turn * T::int(j) / T::int(div);
@@ -141,7 +141,7 @@ macro_rules! angle_systems {
                 rep.cases(
                     concat!("modular/", $label),
                     T::NAME,
-                    &format!("{} angles j*turn/{} + eps, eps in {{0, +-1/7, +-tiny}}{}", vals.len(), if rep.thorough() { 64 } else { 8 }, if T::EXACT { "" } else { " plus native edge values" }),
+                    &format!("{} angles j*turn/{} + eps, eps in {{0, +-1/7, +-tiny}}{}", vals.len(), if rep.thorough() { 96 } else { 8 }, if T::EXACT { "" } else { " plus native edge values" }),
                     vals.len(),
                     Guard::states(100).distinct(100),
                     |i, ctx| {
@@ -181,9 +181,9 @@ macro_rules! angle_systems {
             }
 
             pub fn bisect<T: Fl>(rep: &mut Report) {
-                let all = values::<T>(false);
-                // pairs over a thinned value list: every 2nd value (quick) / all (thorough)
-                let vals: Vec<T> = if rep.quick() { all.iter().copied().step_by(2).collect() } else { all };
+                // pairs over a thinned value list: every 2nd value of the coarse lattice (quick) / every 4th value of the
+                // fine one (thorough; the stride is coprime to the five offsets per lattice point, so every offset occurs)
+                let vals: Vec<T> = if rep.quick() { values::<T>(false).into_iter().step_by(2).collect() } else { values::<T>(true).into_iter().step_by(4).collect() };
                 let n = vals.len();
                 rep.cases(
                     concat!("bisect/", $label),
@@ -283,8 +283,8 @@ macro_rules! angle_systems {
 
             /// chains of normalising operations: range closure from non-initial states
             pub fn chains<T: Fl>(rep: &mut Report) {
-                let depth = rep.pick(3, 5);
-                let inits: Vec<St<T>> = values::<T>(false).into_iter().step_by(3).filter(|x| x.f().abs() < 1e6).map(|x| St(vec![x])).collect();
+                let depth = rep.pick(3, 6);
+                let inits: Vec<St<T>> = values::<T>(false).into_iter().step_by(rep.pick(3, 1)).filter(|x| x.f().abs() < 1e6).map(|x| St(vec![x])).collect();
                 const ACT: [&str; 6] = ["normalize", "normalize_signed", "opposite", "neg", "+turn/4", "bisect(.,turn/3)"];
                 rep.bfs(
                     concat!("chains/", $label),
@@ -317,7 +317,7 @@ macro_rules! angle_systems {
             pub fn trig<T: Fl>(rep: &mut Report) {
                 let to_rad: f64 = if $is_rad { 1.0 } else { PI / 180.0 };
                 let mut xs: Vec<f64> = Vec::new();
-                let steps = rep.pick(40, 400);
+                let steps = rep.pick(40, 4000);
                 for j in -steps..=steps {
                     xs.push(j as f64 * 0.37 * 40.0 / steps as f64 / to_rad);
                 }
@@ -388,7 +388,7 @@ macro_rules! angle_systems {
                     },
                 );
                 // inverse functions: principal value in the caller's unit
-                let n = rep.pick(41, 401);
+                let n = rep.pick(41, 4001);
                 let mut ratios: Vec<T> = (0..n).map(|j| num_traits::cast::<f64, T>(-1.0 + 2.0 * j as f64 / (n - 1) as f64).unwrap()).collect();
                 // small arguments (asin x = x, atan x = x short cuts) and the neighbourhood of +-1
                 for k in 1..=7 {
